@@ -1924,6 +1924,11 @@ def run(ctx):
         "leave their base value per request; object content up to 3 "
         "properties / 4 parameters; the seeded random driver goes beyond "
         "that without the transcription comparison",
+        "the object case space (tocimxml() of names / instances / classes / "
+        "properties / parameter values) is the full product path shape x "
+        "ignore arguments x reference shape per kind, with one reference "
+        "value per place and paths nested at most 2 deep; embedded "
+        "instances are character data of VALUE and are not looked into",
         "characters are judged per class (ascii, c1, latin1, bmp, astral / "
         "c0ctl, surrogate, fffe); within a class code points are sampled",
         "targets used for the CIMObject comparison never contain the "
